@@ -90,7 +90,7 @@ def strategy(tier):
              "log": draw(st.booleans()),
              "seed": draw(st.integers(0, 2 ** 32 - 1)),
              "n": draw(st.sampled_from([1, 1, 2, 3, 5, 8, 13, 20])),
-             "style": draw(st.sampled_from(["mixed", "mixed", "keyword"]))}
+             "style": draw(st.sampled_from(["mixed", "mixed", "keyword", "positional"]))}
         if kind in ("d", "p", "q") and fam != "nbinom" and draw(st.integers(0, 2)) == 0:
             # the same argument asked again for other parameter values (and back): no answer may depend on an earlier call
             c["again"] = [draw(_params(fam)) for _ in range(draw(st.integers(1, 2)))]
@@ -195,6 +195,8 @@ DEFAULTS = {"exp": {"rate": 1.0}, "norm": {"mean": 0, "sd": 1}, "unif": {"min": 
             "pois": {"mu": 1.0}}
 
 
+_ORDER = {"exp": ["rate"], "gamma": ["shape", "rate"], "norm": ["mean", "sd"], "chisq": ["df"], "unif": ["min", "max"],
+          "beta": ["shape1", "shape2"], "pois": ["mu"], "binom": ["size", "prob"]}
 _STYLE = ["mixed"]          # how parameters are handed over in this case: the historical mix, or all by keyword
 
 
@@ -206,6 +208,11 @@ def _call(fn, fam, x, P, use_defaults, **kw):
         return f(x, **kw)
     if _STYLE[0] == "keyword" and fam != "nbinom":
         return f(x, **P, **kw)                      # every parameter by keyword
+    if _STYLE[0] == "positional" and fam in _ORDER and fn[0] in "dp" and set(kw) == {"log"}:
+        # everything by position, the log flag included: d/p functions are declared as f(x, <parameters>, log)
+        return f(x, *[P[k] for k in _ORDER[fam]], kw["log"])
+    if _STYLE[0] == "positional" and fam in _ORDER and not kw:
+        return f(x, *[P[k] for k in _ORDER[fam]])
     if fam == "gamma":
         return f(x, P["shape"], rate=P["rate"], **kw)
     if fam == "chisq":
